@@ -8,8 +8,9 @@
 (*   gc0IdHashInBuf  (VAR_HASH, base 36)      -> HashDigits                 *)
 (*   strHash (strops.c)                       -> StrHash                    *)
 (*   gc0VarId / gc0MultVarId                  -> VarId / Mangle             *)
-(* A name is a sequence of one-character strings; the buffer is a string    *)
-(* (only its length and appending are used by the code).  The string hash   *)
+(* A name and the identifier buffer are sequences of one-character strings  *)
+(* (the code uses only the buffer's length and appending; TLC interns every *)
+(* string under a global lock, so whole strings are built for export only).   The string hash   *)
 (* is a parameter H (a function on names): the small model uses a tiny H so *)
 (* that hash collisions are plentiful; the binding uses H := strHash.       *)
 (*                                                                         *)
@@ -34,20 +35,24 @@ AlnumSet == AlphaSet \cup DigitSet
 
 (* ccSpecCharIdTable, in the order of genc.c *)
 SpecTable == <<
-  <<"!", "_BANG_">>, <<"\"", "_QUOTE_">>, <<"#", "_SHARP_">>, <<"$", "_DOLLR_">>, <<"%", "_PCENT_">>,
-  <<"&", "_AMPER_">>, <<"'", "_APOS_">>, <<"(", "_OPAREN_">>, <<")", "_CPAREN_">>, <<"*", "_STAR_">>,
-  <<"+", "_PLUS_">>, <<",", "_COMMA_">>, <<"-", "_MINUS_">>, <<".", "_DOT_">>, <<"/", "_SLASH_">>,
-  <<":", "_COLON_">>, <<";", "_SEMI_">>, <<"<", "_LT_">>, <<"=", "_EQ_">>, <<">", "_GT_">>,
-  <<"?", "_QMARK_">>, <<"@", "_AT_">>, <<"[", "_OBRACK_">>, <<"\\", "_BSLSH_">>, <<"]", "_CBRACK_">>,
-  <<"^", "_HAT_">>, <<"_", "__">>, <<"`", "_GRAVE_">>, <<"{", "_OBRACE_">>, <<"|", "_BAR_">>,
-  <<"}", "_CBRACE_">>, <<"~", "_TILDE_">> >>
+  <<"!", <<"_", "B", "A", "N", "G", "_">> >>, <<"\"", <<"_", "Q", "U", "O", "T", "E", "_">> >>, <<"#", <<"_", "S", "H", "A", "R", "P", "_">> >>,
+  <<"$", <<"_", "D", "O", "L", "L", "R", "_">> >>, <<"%", <<"_", "P", "C", "E", "N", "T", "_">> >>, <<"&", <<"_", "A", "M", "P", "E", "R", "_">> >>,
+  <<"'", <<"_", "A", "P", "O", "S", "_">> >>, <<"(", <<"_", "O", "P", "A", "R", "E", "N", "_">> >>, <<")", <<"_", "C", "P", "A", "R", "E", "N", "_">> >>,
+  <<"*", <<"_", "S", "T", "A", "R", "_">> >>, <<"+", <<"_", "P", "L", "U", "S", "_">> >>, <<",", <<"_", "C", "O", "M", "M", "A", "_">> >>,
+  <<"-", <<"_", "M", "I", "N", "U", "S", "_">> >>, <<".", <<"_", "D", "O", "T", "_">> >>, <<"/", <<"_", "S", "L", "A", "S", "H", "_">> >>,
+  <<":", <<"_", "C", "O", "L", "O", "N", "_">> >>, <<";", <<"_", "S", "E", "M", "I", "_">> >>, <<"<", <<"_", "L", "T", "_">> >>,
+  <<"=", <<"_", "E", "Q", "_">> >>, <<">", <<"_", "G", "T", "_">> >>, <<"?", <<"_", "Q", "M", "A", "R", "K", "_">> >>,
+  <<"@", <<"_", "A", "T", "_">> >>, <<"[", <<"_", "O", "B", "R", "A", "C", "K", "_">> >>, <<"\\", <<"_", "B", "S", "L", "S", "H", "_">> >>,
+  <<"]", <<"_", "C", "B", "R", "A", "C", "K", "_">> >>, <<"^", <<"_", "H", "A", "T", "_">> >>, <<"_", <<"_", "_">> >>,
+  <<"`", <<"_", "G", "R", "A", "V", "E", "_">> >>, <<"{", <<"_", "O", "B", "R", "A", "C", "E", "_">> >>, <<"|", <<"_", "B", "A", "R", "_">> >>,
+  <<"}", <<"_", "C", "B", "R", "A", "C", "E", "_">> >>, <<"~", <<"_", "T", "I", "L", "D", "E", "_">> >> >>
 SpecChars == {SpecTable[i][1] : i \in 1..Len(SpecTable)}
 SpecImg == [c \in SpecChars |-> (CHOOSE i \in 1..Len(SpecTable) : SpecTable[i][1] = c)]
 SpecStr == [c \in SpecChars |-> SpecTable[SpecImg[c]][2]]
 
 (* gcvIdChars / gcvIdCharc: alphanumerics unchanged (width 1), table characters replaced   *)
 (* by their string, every other character NOT_PRINTABLE: dropped, width 0                  *)
-Img(c)   == IF c \in AlnumSet THEN c ELSE IF c \in SpecChars THEN SpecStr[c] ELSE ""
+Img(c)   == IF c \in AlnumSet THEN <<c>> ELSE IF c \in SpecChars THEN SpecStr[c] ELSE <<>>
 Width(c) == Len(Img(c))
 
 (* printable ASCII in code order 32..126, for strHash *)
@@ -66,13 +71,13 @@ StrHash(name) == FoldLeft(LAMBDA h, c : HashStep(h, CodeOf[c]), 0, name)
 VarHash == 60466169          \* 0x39AA3F9
 HashDigitsOf(v) ==
   LET d1 == v % 36  d2 == (v \div 36) % 36  d3 == (v \div 1296) % 36  d4 == (v \div 46656) % 36
-      d5 == (v \div 1679616) % 36   d6 == v \div 60466176
-  IN IF v = 0 THEN ""
-     ELSE IF v < 36 THEN Dig36[d1 + 1]
-     ELSE IF v < 1296 THEN Dig36[d2 + 1] \o Dig36[d1 + 1]
-     ELSE IF v < 46656 THEN Dig36[d3 + 1] \o Dig36[d2 + 1] \o Dig36[d1 + 1]
-     ELSE IF v < 1679616 THEN Dig36[d4 + 1] \o Dig36[d3 + 1] \o Dig36[d2 + 1] \o Dig36[d1 + 1]
-     ELSE Dig36[d5 + 1] \o Dig36[d4 + 1] \o Dig36[d3 + 1] \o Dig36[d2 + 1] \o Dig36[d1 + 1]
+      d5 == (v \div 1679616) % 36
+  IN IF v = 0 THEN <<>>
+     ELSE IF v < 36 THEN <<Dig36[d1 + 1]>>
+     ELSE IF v < 1296 THEN <<Dig36[d2 + 1], Dig36[d1 + 1]>>
+     ELSE IF v < 46656 THEN <<Dig36[d3 + 1], Dig36[d2 + 1], Dig36[d1 + 1]>>
+     ELSE IF v < 1679616 THEN <<Dig36[d4 + 1], Dig36[d3 + 1], Dig36[d2 + 1], Dig36[d1 + 1]>>
+     ELSE <<Dig36[d5 + 1], Dig36[d4 + 1], Dig36[d3 + 1], Dig36[d2 + 1], Dig36[d1 + 1]>>
 HashDigits(h) == HashDigitsOf(h % VarHash)
 
 ---------------------------------------------------------------------------
@@ -85,24 +90,26 @@ Valid(buf, s, idlen) ==
                                 ELSE <<acc[1], TRUE>>,
            <<buf, FALSE>>, s)[1]
 
-PutI(n) == IF n < 0 THEN "-" \o ToString(-n) ELSE ToString(n)      \* bufPuti
+RECURSIVE DecDigits(_)
+DecDigits(n) == IF n < 10 THEN <<Digits[n + 1]>> ELSE Append(DecDigits(n \div 10), Digits[(n % 10) + 1])
+PutI(n) == IF n < 0 THEN <<"-">> \o DecDigits(-n) ELSE DecDigits(n)      \* bufPuti
 
 IsGlobalKind(kind) == kind = <<"G">> \/ kind = <<"p", "G">>
-KindStr(kind) == FoldLeft(LAMBDA a, c : a \o c, "", kind)
+Str(cs) == FoldLeft(LAMBDA a, c : a \o c, "", cs)      \* a character sequence as a string (exports only)
 
 (* gc0VarId(str, id) *)
-VarId(kind, id, idlen) == Valid("", kind, idlen) \o PutI(id)
+VarId(kind, id, idlen) == Valid(<<>>, kind, idlen) \o PutI(id)
 
 (* gc0MultVarId(strA, id, strB); hv = strHash(strB) *)
 MangleH(kind, index, name, idlen, idhash, hv) ==
   IF IsGlobalKind(kind)
-  THEN LET b0 == KindStr(kind) \o "_"
-           b1 == IF idhash THEN b0 \o HashDigits(hv) \o "_" ELSE b0
+  THEN LET b0 == Append(kind, "_")
+           b1 == IF idhash THEN Append(b0 \o HashDigits(hv), "_") ELSE b0
        IN Valid(b1, name, idlen)
-  ELSE LET b0 == IF Len(kind) = 1 /\ kind[1] \in AlphaSet THEN kind[1]
-                 ELSE Valid(IF kind[1] \in DigitSet THEN "_" ELSE "", kind, idlen)
+  ELSE LET b0 == IF Len(kind) = 1 /\ kind[1] \in AlphaSet THEN kind
+                 ELSE Valid(IF kind[1] \in DigitSet THEN <<"_">> ELSE <<>>, kind, idlen)
            b1 == b0 \o PutI(index)
-       IN IF name = <<>> THEN b1 ELSE Valid(b1 \o "_", name, idlen)
+       IN IF name = <<>> THEN b1 ELSE Valid(Append(b1, "_"), name, idlen)
 
 Mangle(kind, index, name, idlen, idhash, H) == MangleH(kind, index, name, idlen, idhash, H[name])
 
@@ -132,13 +139,13 @@ TruncImg(name, room, unlimited) ==
                            ELSE IF unlimited \/ Len(acc[1]) + Width(c) <= room
                                 THEN <<acc[1] \o Img(c), FALSE>>
                                 ELSE <<acc[1], TRUE>>,
-           <<"", FALSE>>, name)[1]
+           <<<<>>, FALSE>>, name)[1]
 
 (* the claimed normal form of a global's identifier: kind, hash digits, truncated image.     *)
 (* room = idlen - (kind, '_', digits, '_'), i.e. 22 characters for G and five digits at 30   *)
 GlobalKey(kind, name, il, ih) ==
-  LET dg == IF ih THEN HashDigits(TinyH[name]) ELSE "-"
-      pre == Len(KindStr(kind)) + 1 + (IF ih THEN Len(dg) + 1 ELSE 0)
+  LET dg == IF ih THEN HashDigits(TinyH[name]) ELSE <<"-">>
+      pre == Len(kind) + 1 + (IF ih THEN Len(dg) + 1 ELSE 0)
   IN <<kind, dg, TruncImg(name, il - pre, il = 0)>>
 
 VARIABLES idlen, idhash, group, verdict
@@ -175,7 +182,7 @@ GlobalWitness(il, ih) ==
               es == {p[2] : p \in {q \in ims : q[1] = im}}
               e1 == CHOOSE e \in es : TRUE
               e2 == CHOOSE e \in es : e # e1
-          IN <<im, KindStr(e1[1]), KindStr(e1[2]), KindStr(e2[1]), KindStr(e2[2])>>
+          IN <<Str(im), Str(e1[1]), Str(e1[2]), Str(e2[1]), Str(e2[2])>>
 
 (* 2. indexed entities: the entity is (kind, index), the name is only an attribute.  The     *)
 (* image sets of distinct (kind, index) must be pairwise disjoint, whatever the names.       *)
@@ -191,43 +198,55 @@ IndexedVsGlobals(il, ih) ==
 
 (* 3. the mangling of a whole name is injective on printable names when nothing is cut *)
 ImgInjective == LET P == {n \in Names : Printable(n)}
-                IN Cardinality({Valid("", n, 0) : n \in P}) = Cardinality(P)
+                IN Cardinality({Valid(<<>>, n, 0) : n \in P}) = Cardinality(P)
 (* and a limit is respected: no identifier part appended by Valid passes idlen *)
-LimitRespected(il) == il = 0 \/ \A n \in Names : Len(Valid("", n, il)) <= il
+LimitRespected(il) == il = 0 \/ \A n \in Names : Len(Valid(<<>>, n, il)) <= il
 (* strHash transcription: fixed vectors computed with the C function (harness/strhash_drv.c) *)
 HashVectors ==
   /\ StrHash(<<>>) = 0
-  /\ HashDigits(StrHash(<<"p">>)) = "4AFT"
-  /\ HashDigits(StrHash(<<"p","_","f","9","_","3","5","3","9","7","8","8","4","5">>)) = "EOK2O"
+  /\ Str(HashDigits(StrHash(<<"p">>))) = "4AFT"
+  /\ Str(HashDigits(StrHash(<<"p","_","f","9","_","3","5","3","9","7","8","8","4","5">>))) = "EOK2O"
 (* every step of strHash is a bijection of the 30-bit state: equal-length names that differ  *)
 (* only in their last character never have the same strHash                                  *)
 HashStepInjective == \A h \in {0, 1, 255, 4194303, 4194304, 1073741823} :
                         \A c1, c2 \in 32..126 : c1 # c2 => HashStep(h, c1) # HashStep(h, c2)
 
 Init == idlen = -1 /\ idhash = TRUE /\ group = "none" /\ verdict = <<>>
+(* two steps, so that TLC's workers share the evaluation: Pick is cheap and fans out, Eval   *)
+(* does the exhaustive evaluation for one (idlen, idhash, group).                             *)
 Pick == /\ group = "none"
         /\ \E il \in IdLens, ih \in BOOLEAN, g \in Groups :
               /\ (g # "globals" => ih) /\ (g = "hashfun" => il = 0)
-              /\ idlen' = il /\ idhash' = ih /\ group' = g
-              /\ verdict' = IF g = "globals" THEN <<GlobalCollisions(il, ih), GlobalWitness(il, ih), GlobalCollisionsP(il, ih)>> ELSE <<>>
-Export == /\ group = "globals"
-          /\ PrintT("CNAMES " \o ToJson([idlen |-> idlen, idhash |-> idhash, collisions |-> verdict[1], witness |-> verdict[2], collisions_printable |-> verdict[3],
-                                          names |-> Cardinality(GlobalSet)]))
+              /\ idlen' = il /\ idhash' = ih /\ group' = g /\ verdict' = <<"todo">>
+Eval == /\ group # "none" /\ verdict = <<"todo">>
+        /\ verdict' =
+             CASE group = "globals" -> <<GlobalCollisions(idlen, idhash), GlobalWitness(idlen, idhash),
+                                         GlobalCollisionsP(idlen, idhash), GlobalsExact(idlen, idhash)>>
+               [] group = "indexed" -> <<IndexedDisjoint(idlen), IndexedVsGlobals(idlen, TRUE)>>
+               [] OTHER -> <<ImgInjective, HashVectors, HashStepInjective, \A il \in IdLens : LimitRespected(il)>>
+        /\ UNCHANGED <<idlen, idhash, group>>
+Done == group # "none" /\ verdict # <<"todo">>
+Export == /\ group = "globals" /\ Done
+          /\ PrintT("CNAMES " \o ToJson([idlen |-> idlen, idhash |-> idhash, collisions |-> verdict[1], witness |-> verdict[2],
+                                          collisions_printable |-> verdict[3], names |-> Cardinality(GlobalSet)]))
           /\ UNCHANGED vars
-Next == Pick \/ Export
+Next == Pick \/ Eval \/ Export
 Spec == Init /\ [][Next]_vars
 
 (* ---- invariants ---- *)
 (* the exact collision condition of globals: same kind, same hash digits, same truncated image *)
-CollisionExact == group = "globals" => GlobalsExact(idlen, idhash)
-(* indexed entities are distinct for every admissible limit *)
-IndexedDistinct == (group = "indexed" /\ (idlen = 0 \/ idlen >= MinIdLen)) =>
-                      IndexedDisjoint(idlen) /\ IndexedVsGlobals(idlen, TRUE)
-Sanity == group = "hashfun" => ImgInjective /\ HashVectors /\ HashStepInjective /\ \A il \in IdLens : LimitRespected(il)
+CollisionExact == (group = "globals" /\ Done) => verdict[4]
+(* indexed entities (constants, locals, lexicals, parameters, labels, formats ...) are distinct *)
+(* for every admissible limit: the index is written in full before the name                   *)
+IndexedDistinct == (group = "indexed" /\ Done /\ (idlen = 0 \/ idlen >= MinIdLen)) => verdict[1] /\ verdict[2]
+(* below MinIdLen the kind string itself is cut ("tmp" / "tmpClos"): TLC shows it with       *)
+(* CNamesShort.cfg (IndexedDistinctAll); such limits are outside C16 (below the default)      *)
+IndexedDistinctAll == (group = "indexed" /\ Done) => verdict[1] /\ verdict[2]
+Sanity == (group = "hashfun" /\ Done) => verdict[1] /\ verdict[2] /\ verdict[3] /\ verdict[4]
 (* the statement of C16 for globals.  It does NOT hold of the code as written (the hash of  *)
 (* the full name is the only thing that separates two names with one truncated image):       *)
 (* configuration CNamesDistinct.cfg checks it and TLC reports the counterexample.            *)
-GlobalsDistinct == group = "globals" => verdict[3] = 0
-(* what does hold: with no limit, or with an injective hash, globals are distinct *)
-GlobalsDistinctUnlimited == (group = "globals" /\ idlen = 0) => verdict[3] = 0
+GlobalsDistinct == (group = "globals" /\ Done) => verdict[3] = 0
+(* what does hold: with no limit, printable names are distinct *)
+GlobalsDistinctUnlimited == (group = "globals" /\ Done /\ idlen = 0) => verdict[3] = 0
 =============================================================================
